@@ -129,6 +129,9 @@ def evaluate(ctx, consts, cases, impl, nref, acc, tag):
         if m[0] == "B3":
             acc["b3_runs"] += 1
             cexit = "iterCap" if info.get("cap") == "1" else "converged"
+            if o.get("exit") == "innerFuel":
+                # impossible on a certified system with innerFuel = 4n+8 > n (theorem block3_inner_terminates): driver and theorem disagree
+                ctx.tie_ok = False; ctx.broken.append({"kind": "BLOCK3 state machine left through the model-only innerFuel exit on a certified system (contradicts block3_inner_terminates)", "model": out_of[idx], "system": cur[:300]})
             if o.get("exit") != cexit:
                 acc["b3_exit_mismatch"] += 1
                 if kind in (0, 1, 4):
@@ -223,7 +226,8 @@ def finish(ctx, acc, dist, consts):
     ctx.coverage["input_distribution"] = {"harness": dist, "kinds": KINDS, "constants_from_source": consts}
     ctx.coverage["measured"] = d
     ctx.assumptions += [
-        "positive definiteness of the generated systems: exact certificate (symmetric, all elimination pivots > 0 in Rat) for n <= 12; Sylvester's criterion itself is not formalised; larger systems are B'B + I in exact integer arithmetic",
+        "positive definiteness of the generated systems: exact certificate (symmetric, all elimination pivots > 0 in Rat) for n <= 12, proved equivalent to v'Av > 0 (spdCert_iff); larger systems are B'B + I in exact integer arithmetic (not certified by the driver)",
+        "the exact solves of the BLOCK3 state machine (exactEnv: Gauss-Jordan on the passive set) are proved correct and total on certified systems (solveOn_solves, solveOn_returns, exactEnv_ExactEnv); the model-only exit innerFuel is proved unreachable there (block3_inner_terminates) and is reported as a broken tie if the driver ever prints it",
         "certificate checking: the solvers' convergence for all inputs is not proved (and is false at the iteration caps); iteration-cap exits are counted separately",
         "tolerance tol_i = tolS + negpart*sum|A_ij| + 64 n 2^-53 (sum_j |A_ij| x_j + |b_i|) (Cholesky-based solvers) / tolS + 64 max(n,rows) 2^-53 sum_i(sum_j |A|_ij x_j + |b|_i) (Lawson-Hanson: QR is not invariant under scaling; |A|=|M|'|M|, |b|=|M|'|v| in least-squares form): the rounding term is an envelope for CHOLMOD/SPQR backward error, measured worst componentwise ratio reported per solver",
         "OMP_NUM_THREADS=1; a scheduling-dependent hang of walk_descents (property C12) is retried up to 3 times and counted",
